@@ -8,6 +8,9 @@ import json
 import sys
 
 
+TRIED = [0]
+
+
 def twin_check():
     import desper
 
@@ -42,16 +45,39 @@ def twin_check():
         a = desper.ComponentReference(A)
         p = desper.ProcessorReference(P1)
 
+    import abc
+    import typing
+
+    class V(abc.ABC):
+        """Only a virtual base of B: World queries walk real subclasses, so V finds nothing."""
+    V.register(B)
+
+    @typing.runtime_checkable
+    class HasOnAdd(typing.Protocol):
+        def on_add(self, entity, world): ...
+    QT = {'A': A, 'B': B, 'V': V, 'object': object, 'Proto': HasOnAdd}
+
     def snapshot(w, comps):
         return (sorted(map(repr, w.entities)), list(events.get(id(w), [])),
                 [[type(x).__name__ for x in w.get_components(e)] if w.entity_exists(e) else None for e in (1,)],
                 [[id(c) in [id(x) for x in w.get_components(e)] for c in comps] for e in (1, 2, 3)],
-                [w.has_component(e, T) for e in (1, 2) for T in (A, B)],
+                [w.has_component(e, T) for e in (1, 2) for T in QT.values()],
                 [type(p).__name__ for p in w.processors])
-    ops = ['add_A', 'add_B', 'remove_A', 'remove_B', 'has_A', 'get_A', 'get_components', 'delete',
-           'ref_get', 'ref_set', 'ref_del', 'pref_set', 'pref_get', 'pref_del', 'process']
+
+    def both(f1, f2):
+        out = []
+        for f in (f1, f2):
+            try:
+                out.append(('ok', f()))
+            except Exception as e:      # noqa
+                out.append(('raised', type(e).__name__))
+        return out
+    ops = ['add_A', 'add_B', 'get_components', 'delete',
+           'ref_get', 'ref_set', 'ref_del', 'pref_set', 'pref_get', 'pref_del', 'process'] \
+        + ['%s_%s' % (v, t) for v in ('has', 'get', 'remove') for t in QT]
     for seq in itertools.product(ops, repeat=3):
         events.clear()
+        TRIED[0] += 1
         w1, w2 = desper.World(), desper.World()
         c1, c2 = Ctl(), Ctl()
         w1.create_entity(c1)
@@ -59,46 +85,45 @@ def twin_check():
         if (c1.entity, c1.world) != (1, w1):
             return ('C19', 'Controller.on_add did not record its entity and world', 'on_add')
         pool = [A(), B(), A(), B(), P1(), P1()]
-        k = 0
-        for op in seq:
-            r1 = r2 = None
-            try:
-                if op == 'add_A':
-                    c1.add_component(pool[0]); w2.add_component(1, pool[0]) if False else None
-                    r1 = None
-                    w2.add_component(c2.entity, pool[2])
-                    r2 = None
-                elif op == 'add_B':
-                    desper.add_component(c1, pool[1]); w2.add_component(c2.entity, pool[3])
-                elif op in ('remove_A', 'remove_B'):
-                    T = A if op.endswith('A') else B
-                    r1 = type(c1.remove_component(T)); r2 = type(w2.remove_component(c2.entity, T))
-                elif op == 'has_A':
-                    r1 = c1.has_component(A); r2 = w2.has_component(c2.entity, A)
-                elif op == 'get_A':
-                    r1 = type(desper.get_component(c1, A)); r2 = type(w2.get_component(c2.entity, A))
-                elif op == 'get_components':
-                    r1 = len(c1.get_components()); r2 = len(w2.get_components(c2.entity))
-                elif op == 'delete':
-                    c1.delete(); w2.delete_entity(c2.entity)
-                elif op == 'ref_get':
-                    r1 = type(c1.a); r2 = type(w2.get_component(c2.entity, A))
-                elif op == 'ref_set':
-                    c1.a = pool[0]; w2.add_component(c2.entity, pool[2])
-                elif op == 'ref_del':
-                    del c1.a; w2.remove_component(c2.entity, A)
-                elif op == 'pref_set':
-                    c1.p = pool[4]; w2.add_processor(pool[5])
-                elif op == 'pref_get':
-                    r1 = type(c1.p); r2 = type(w2.get_processor(P1))
-                elif op == 'pref_del':
-                    del c1.p; w2.remove_processor(P1)
-                elif op == 'process':
-                    w1.process(1); w2.process(1)
-            except Exception as e:      # noqa
-                return ('C19', 'shorthand sequence %r raised %r' % (seq, e), 'exception')
-            if r1 != r2:
-                return ('C19', '%s through the controller returned %r, the World call %r (after %r)' % (op, r1, r2, seq), 'result')
+        for k, op in enumerate(seq):
+            verb, _, tn = op.partition('_')
+            T = QT.get(tn)
+            use_fn = (k % 2 == 0)      # alternate the method alias and the module-level function
+            if op == 'add_A':
+                r = both(lambda: c1.add_component(pool[0]), lambda: w2.add_component(c2.entity, pool[2]))
+            elif op == 'add_B':
+                r = both(lambda: desper.add_component(c1, pool[1]), lambda: w2.add_component(c2.entity, pool[3]))
+            elif verb == 'remove' and T is not None:
+                r = both(lambda: type((desper.remove_component(c1, T) if use_fn else c1.remove_component(T))),
+                         lambda: type(w2.remove_component(c2.entity, T)))
+            elif verb == 'has' and T is not None:
+                r = both(lambda: (desper.has_component(c1, T) if use_fn else c1.has_component(T)),
+                         lambda: w2.has_component(c2.entity, T))
+            elif verb == 'get' and T is not None:
+                r = both(lambda: type((desper.get_component(c1, T) if use_fn else c1.get_component(T))),
+                         lambda: type(w2.get_component(c2.entity, T)))
+            elif op == 'get_components':
+                r = both(lambda: [type(x).__name__ for x in c1.get_components()],
+                         lambda: [type(x).__name__ for x in w2.get_components(c2.entity)])
+            elif op == 'delete':
+                r = both(lambda: c1.delete(), lambda: w2.delete_entity(c2.entity))
+            elif op == 'ref_get':
+                r = both(lambda: type(c1.a), lambda: type(w2.get_component(c2.entity, A)))
+            elif op == 'ref_set':
+                r = both(lambda: setattr(c1, 'a', pool[0]), lambda: w2.add_component(c2.entity, pool[2]))
+            elif op == 'ref_del':
+                r = both(lambda: delattr(c1, 'a'), lambda: (w2.remove_component(c2.entity, A), None)[1])
+            elif op == 'pref_set':
+                r = both(lambda: setattr(c1, 'p', pool[4]), lambda: w2.add_processor(pool[5]))
+            elif op == 'pref_get':
+                r = both(lambda: type(c1.p), lambda: type(w2.get_processor(P1)))
+            elif op == 'pref_del':
+                r = both(lambda: delattr(c1, 'p'), lambda: (w2.remove_processor(P1), None)[1])
+            elif op == 'process':
+                r = both(lambda: w1.process(1), lambda: w2.process(1))
+            if r[0] != r[1]:
+                return ('C19', '%s through the controller gave %r, the World call %r (after %r)'
+                        % (op, r[0], r[1], seq[:k]), 'result')
             s1 = snapshot(w1, pool[:2])
             s2 = snapshot(w2, pool[2:4])
             if s1 != s2:
@@ -189,7 +214,10 @@ def main():
                               'observed': v[1], 'signature': '%s:%s' % (v[0], v[2]),
                               'found_by': 'native bounded enumeration'}))
             return
-    print(json.dumps({'status': 'not-found', 'tried': 2}))
+    print(json.dumps({'status': 'not-found', 'tried': TRIED[0] + 256,
+                      'bound': 'every sequence of 3 shorthand operations out of 26 (5 query types incl. a '
+                               'virtual base, object and a runtime-checkable protocol) on twin worlds; '
+                               'all 2*4^3*2 prototype recipes'}))
 
 
 if __name__ == '__main__':
